@@ -519,6 +519,13 @@ def _build(d, st):
         return getattr(_build(d[1], st), d[2])
     if tag == "inst":
         return Callable1(_build(d[1], st))
+    if tag == "hist":         # an equal value reached by another construction route (vf/gen/c12_history.py)
+        from . import c12_history as H
+
+        try:
+            return H.build_hist(d[1])
+        except H.Refused as e:
+            raise Unbuildable(str(e))
     raise ValueError("unknown description tag %r" % (tag,))
 
 
@@ -2623,6 +2630,7 @@ FAMILIES = {
     "dc": (_mut(g_dc, mutate_dc), 3, False),
     "partial": (_mut(g_partial, mutate_partial), 2, False),
     "func": (_mut(g_func, mutate_func), 1, False),
+    "history": (lambda r: __import__("vf.gen.c12_history", fromlist=["x"]).gen_history_pair(r), 8, True),
 }
 
 _NOT_PLAIN = {"set", "frozenset", "dc", "named", "func", "partial", "method", "inst"}
